@@ -473,3 +473,24 @@ func Hash64(parts ...interface{}) uint64 {
 	fmt.Fprint(h, parts...)
 	return h.Sum64()
 }
+
+// GuardedBuf returns an empty buffer of the given capacity that is followed, in the same allocation,
+// by 64 canary bytes; check reports a write beyond the capacity (out is the slice the callee left behind).
+func GuardedBuf(capacity int) (buf []byte, check func(out []byte) string) {
+	big := make([]byte, capacity+64)
+	for i := capacity; i < len(big); i++ {
+		big[i] = 0xA5
+	}
+	buf = big[0:0:capacity]
+	return buf, func(out []byte) string {
+		if len(out) > cap(out) {
+			return fmt.Sprintf("returned slice has len %d > cap %d", len(out), cap(out))
+		}
+		for i := capacity; i < len(big); i++ {
+			if big[i] != 0xA5 {
+				return fmt.Sprintf("byte %d beyond the buffer's capacity %d was overwritten (%#x)", i-capacity, capacity, big[i])
+			}
+		}
+		return ""
+	}
+}
